@@ -1445,3 +1445,180 @@ M.contract(P_PARSE + ':_Parser._with_non_empty_token_stream', params=dict(self=P
                            named_relativity(token_at(tokens, old).string)
                            in accepted_of(self.conf.rel_opt_conf).rel_option_types),
            }, raises_only=())
+
+
+# ============================================================================== write protection: the composed statement
+# A parsed destination argument, resolved against a symbol table that satisfies the restrictions of every reference
+# of the argument (C08 checks them -- VALIDATION_ERROR -- before anything is executed, C03), has an ACCEPTED
+# relativity.  Contrapositive: a path symbol whose value is relative to a home directory or the result directory,
+# or is absolute -- through however many definitions -- is rejected before execution.
+
+def _mk_case(interp, name):
+    """(parser, sdv): an SDV as the parser builds it for its configuration (`respects`, proved above)"""
+    parser = _mk_parser(interp, name + '.parser')
+    conf = parser.conf.rel_opt_conf
+    acc = conf.options.accepted_relativity_variants
+    k = interp.st.choose(4)
+    interp.st.assume(interp.st.fresh_int(name + '.kind') == k)
+    if k == 0:
+        sdv = Inst(sdv_constant.PathConstantSdv, _path=ANY_DDV).make(interp, name + '.sdv')
+    elif k == 1:
+        sdv = Inst(parse_path._PathSdvOfRelativityOptionAndSuffixSdv, relativity=REL,
+                   path_suffix_sdv=Iface(PartSdvI)).make(interp, name + '.sdv')
+    elif k == 2:
+        ref = SymbolReference(Str.make(interp, name + '.symbol'),
+                              interp.call(parse_relativity.reference_restrictions_for_path_symbol, [acc], {}))
+        sdv = path_rel_symbol.PathSdvRelSymbol(Iface(PartSdvI).make(interp, name + '.suffix'), ref)
+    else:
+        ref = SymbolReference(Str.make(interp, name + '.symbol'),
+                              interp.call(path_references.path_or_string_reference_restrictions, [acc], {}))
+        sdv = path_from_symbol_reference.SdvThatIsIdenticalToReferencedPathOrWithStringValueAsSuffix(
+            ref, Iface(PartSdvI).make(interp, name + '.suffix'), conf.options.default_option)
+    return (parser, sdv)
+
+
+def leading_reference(sdv):
+    if isinstance(sdv, path_rel_symbol.PathSdvRelSymbol):
+        return sdv.relativity
+    if isinstance(sdv, path_from_symbol_reference.SdvThatIsIdenticalToReferencedPathOrWithStringValueAsSuffix):
+        return sdv._path_or_string_symbol
+    return None
+
+
+def references_are_satisfied(sdv, symbols):
+    ref = leading_reference(sdv)
+    if ref is None:
+        return True
+    return ref.restrictions.is_satisfied_by(symbols, ref.name, symbols.lookup(ref.name)) is None
+
+
+def destination_ok(parser, sdv, symbols, ddv):
+    conf = parser.conf.rel_opt_conf
+    acc = accepted_of(conf)
+    r = rel_view(ddv)
+    if isinstance(sdv, path_rel_symbol.PathSdvRelSymbol):
+        # -rel SYMBOL: the relativity of the symbol, which the restriction accepted
+        return accepts(acc, r)
+    if isinstance(sdv, parse_path._PathSdvOfRelativityOptionAndSuffixSdv):
+        return r is default_of(conf) or r in acc.rel_option_types
+    if isinstance(sdv, path_from_symbol_reference.SdvThatIsIdenticalToReferencedPathOrWithStringValueAsSuffix):
+        if symbols.lookup(sdv._path_or_string_symbol.name).value_type is ValueType.PATH:
+            return accepts(acc, r)
+        # a STRING symbol is text: the default relativity, or an absolute path if the text is one
+        return r is default_of(conf) or r is None
+    # a literal path: the default relativity, or an absolute path if written as one
+    return r is default_of(conf) or r is None
+
+
+def resolved_destination(case, symbols):
+    """Harness: what a parsed path argument resolves to."""
+    parser, sdv = case
+    return sdv.resolve(symbols)
+
+
+M.contract('contracts.C12_paths:resolved_destination',
+           params=dict(case=Custom(_mk_case), symbols=SYMBOLS),
+           requires=lambda case, symbols: respects(case[0], case[1]) and references_are_satisfied(case[1], symbols),
+           ensures={
+               'relativity accepted by the argument (a path symbol of another relativity was rejected)':
+                   lambda case, symbols, result: destination_ok(case[0], case[1], symbols, result),
+               'well-formed': lambda result: wf(result),
+           }, raises_only=())
+
+
+# ============================================================================== the destination arguments of file, dir, copy
+
+@M.check('destination arguments')
+def _destinations(ctx):
+    """The configurations the REAL parser objects of the writing instructions hold (read from the imported tree)."""
+    from exactly_lib.impls.instructions.multi_phase import new_file, new_dir, copy as copy_instr
+    from exactly_lib.type_val_deps.types.path import rel_opts_configuration as roc
+    from exactly_lib.type_val_deps.types.path import path_relativities
+    writable = {RelOptionType.REL_ACT, RelOptionType.REL_TMP, RelOptionType.REL_CWD}
+
+    def is_write_protected(conf):
+        v = conf.options.accepted_relativity_variants
+        return isinstance(conf, RelOptionArgumentConfiguration) and set(v.rel_option_types) == writable \
+            and v.absolute is False and conf.options.default_option in writable \
+            and set(conf.options.accepted_options) == writable
+
+    ctx.obligation('RELATIVITY_VARIANTS_FOR_FILE_CREATION == {act, tmp, cd}, not absolute',
+                   set(roc.RELATIVITY_VARIANTS_FOR_FILE_CREATION.rel_option_types) == writable
+                   and roc.RELATIVITY_VARIANTS_FOR_FILE_CREATION.absolute is False, 'enumeration')
+    ctx.obligation('REL_OPTIONS_FOR_FILE_CREATION: those variants, default -rel-cd',
+                   roc.REL_OPTIONS_FOR_FILE_CREATION.accepted_relativity_variants
+                   is roc.RELATIVITY_VARIANTS_FOR_FILE_CREATION
+                   and roc.REL_OPTIONS_FOR_FILE_CREATION.default_option is RelOptionType.REL_CWD, 'enumeration')
+    confs = {
+        'file (before act)': new_file.EmbryoParser(False)._path_parser._conf,
+        'file (after act)': new_file.EmbryoParser(True)._path_parser._conf,
+        'dir': new_dir.EmbryoParser()._path_parser._conf,
+        'dir (PARTS_PARSER)': new_dir.PARTS_PARSER._embryo_parser._path_parser._conf
+        if hasattr(new_dir.PARTS_PARSER, '_embryo_parser') else new_dir.RELATIVITY_VARIANTS,
+        'copy destination (before act)': copy_instr.EmbryoParser(False)._dst_path_parser._conf,
+        'copy destination (after act)': copy_instr.EmbryoParser(True)._dst_path_parser._conf,
+    }
+    for name, conf in confs.items():
+        v = conf.options.accepted_relativity_variants
+        ctx.obligation('destination of %s accepts exactly {act, tmp, cd}, no absolute path, default among them' % name,
+                       is_write_protected(conf), 'enumeration',
+                       detail={'accepted': sorted(r.name for r in v.rel_option_types), 'absolute': v.absolute,
+                               'default': conf.options.default_option.name})
+    # the path parser of these instructions is parse_path.PathParser on that configuration, without -rel-here
+    import ast
+    import inspect
+    for mod, cls in ((new_file, new_file.EmbryoParser), (new_dir, new_dir.EmbryoParser),
+                     (copy_instr, copy_instr.EmbryoParser)):
+        tree = ast.parse(inspect.getsource(cls))
+        calls = [n for n in ast.walk(tree) if isinstance(n, ast.Call) and isinstance(n.func, ast.Attribute)
+                 and n.func.attr == 'parse_from_token_parser']
+        ctx.obligation('%s.EmbryoParser parses its paths with PathParser.parse_from_token_parser(tokens) only '
+                       '(no source_file_location: -rel-here is not available)' % mod.__name__.rpartition('.')[2],
+                       len(calls) >= 1 and all(len(c.args) == 1 and not c.keywords for c in calls), 'scan',
+                       detail={'calls': len(calls)})
+    # reading arguments: every relativity except the result directory before the act phase; all of them after it
+    before = path_relativities.relativity_variants(False)
+    after = path_relativities.relativity_variants(True)
+    ctx.obligation('reading arguments accept all relativities but -rel-result before act, all of them after act',
+                   set(before.rel_option_types) == set(RelOptionType) - {RelOptionType.REL_RESULT}
+                   and set(after.rel_option_types) == set(RelOptionType) and before.absolute and after.absolute,
+                   'enumeration')
+
+
+# ============================================================================== -rel-cd is resolved at the time of use
+
+import os
+
+
+def cwd_is_read_at_time_of_use(suffix, d1, d2, sds):
+    """Harness: a -rel-cd path created in one current directory and used in another one."""
+    os.chdir(d1)
+    ddv = path_ddvs._PathDdvFromRelRootResolver(relativity_root.resolver_for_cwd,
+                                                path_ddvs.constant_path_part(suffix))
+    os.chdir(d2)
+    return ddv.value_post_sds(sds)
+
+
+M.contract('contracts.C12_paths:cwd_is_read_at_time_of_use',
+           params=dict(suffix=Str, d1=Str, d2=Str, sds=SDS),
+           old=lambda ghost: cwd_now(ghost),
+           ensures={'the current directory of the time of USE (after the second cd) is the root':
+                        lambda suffix, d1, d2, result, old:
+                        den(result) == join(join(join(old, P(d1)), P(d2)), P(suffix))},
+           raises_only=())
+
+# ---- the restricted reference is among the references of the SDV (so that C08 checks it before execution)
+
+M.contract(P_SDV + '.path_rel_symbol:PathSdvRelSymbol.references',
+           params=dict(self=Inst(path_rel_symbol.PathSdvRelSymbol,
+                                 path_suffix=Inst(part_impl.PathPartSdvAsNothing), relativity=SYMBOL_REF)),
+           inline=True,
+           ensures={'the -rel SYMBOL reference comes first': lambda self, result: result[0] is self.relativity},
+           raises_only=())
+M.contract(P_SDV + '.path_from_symbol_reference:SdvThatIsIdenticalToReferencedPathOrWithStringValueAsSuffix.references',
+           params=dict(self=Inst(path_from_symbol_reference.SdvThatIsIdenticalToReferencedPathOrWithStringValueAsSuffix,
+                                 _path_or_string_symbol=SYMBOL_REF, _suffix_sdv=Inst(part_impl.PathPartSdvAsNothing),
+                                 default_relativity=REL)),
+           inline=True,
+           ensures={'the leading reference comes first': lambda self, result:
+           result[0] is self._path_or_string_symbol}, raises_only=())
